@@ -40,8 +40,6 @@ InsertDesc(sorted, v) ==                  \* stable descending insertion
 RECURSIVE SortDesc(_, _)
 SortDesc(s, k) == IF k = 0 THEN <<>> ELSE InsertDesc(SortDesc(s, k - 1), s[k])
 
-RECURSIVE FilterSeq(_, _, _)
-FilterSeq(s, k, P(_)) == IF k = 0 THEN <<>> ELSE IF P(s[k]) THEN Append(FilterSeq(s, k - 1, P), s[k]) ELSE FilterSeq(s, k - 1, P)
 
 -----------------------------------------------------------------------------
 (* compact: [inner: Seq of [z: BOOLEAN, v: token | count], len] *)
@@ -57,7 +55,7 @@ CPush(c, v) ==
        ELSE [inner |-> Append(c.inner, ZeroRun(1)), len |-> c.len + 1]
 
 IsValEntry(e) == ~e.z
-CRetain(c) == [c EXCEPT !.inner = FilterSeq(c.inner, Len(c.inner), IsValEntry)]
+CRetain(c) == [c EXCEPT !.inner = SelectSeq(c.inner, IsValEntry)]
 CHasZero(c) == \E i \in 1..Len(c.inner) : c.inner[i].z
 CValues(c) == [i \in 1..Len(c.inner) |-> c.inner[i].v]                     \* only meaningful without zero runs
 CSortDesc(c) == [c EXCEPT !.inner = [i \in 1..Len(c.inner) |-> Val(SortDesc(CValues(c), Len(c.inner))[i])]]
@@ -67,7 +65,6 @@ Expand(inner, k) ==                       \* iter() / into_vec(): zero runs beco
   IF k = 0 THEN <<>>
   ELSE Expand(inner, k - 1) \o (IF inner[k].z THEN [j \in 1..inner[k].n |-> <<"pz", 0>>] ELSE <<inner[k].v>>)
 CIntoVec(c) == Expand(c.inner, Len(c.inner))
-CSumTerms(c) == FilterSeq(CIntoVec(CRetain(c)), Len(CRetain(c).inner), LAMBDA v : TRUE)   \* values only
 
 (* scale the first k entries (sorted_non_zero_iter_mut().take(k)): m -> m - 1 stays positive *)
 ScaleTok(v) == IF Class(v) = "pos" THEN <<"pos", v[2] * 2 - 1>> ELSE v       \* magnitudes are doubled first, see MC
@@ -76,7 +73,7 @@ CScale(c, k) == [c EXCEPT !.inner = [i \in 1..Len(c.inner) |-> IF i <= k THEN Va
 -----------------------------------------------------------------------------
 (* raw: Seq of tokens *)
 RPush(r, v) == Append(r, v)
-RRetain(r) == FilterSeq(r, Len(r), GreaterThanZero)
+RRetain(r) == SelectSeq(r, GreaterThanZero)
 RSortDesc(r) == SortDesc(r, Len(r))
 RScale(r, k) == [i \in 1..Len(r) |-> IF i <= k THEN ScaleTok(r[i]) ELSE r[i]]
 
@@ -102,7 +99,8 @@ NumEqTok(a, b) == \/ (IsNumZero(a) /\ IsNumZero(b))
                   \/ (a = b /\ Class(a) \notin {"pnan", "nnan"})
 NumEqSeq(a, b) == Len(a) = Len(b) /\ \A i \in 1..Len(a) : NumEqTok(a[i], b[i])
 (* for sum: zeros do not matter *)
-NonZeroPart(s) == FilterSeq(s, Len(s), LAMBDA v : ~IsNumZero(v))
+NotNumZero(v) == ~IsNumZero(v)
+NonZeroPart(s) == SelectSeq(s, NotNumZero)
 SameResult(op, a, b) == IF op = "sum" THEN NumEqSeq(NonZeroPart(a), NonZeroPart(b)) ELSE NumEqSeq(a, b)
 
 (* C11 invariants on the compact list *)
